@@ -655,6 +655,16 @@ func (cs *Contracts) parseFile(path, pkg string) error {
 			}
 			curLemma = &Lemma{Name: m[1], Pkg: pkg, Props: append([]string(nil), props...), Params: ps}
 			pend = &pending{kind: "lemma", src: m[3], line: lineNo}
+		case "nouse":
+			// nouse <func>: after "<callee>" argument <i>   the i-th argument of the call is not used by any instruction the call dominates
+			if err := flush(); err != nil {
+				return err
+			}
+			nm := regexp.MustCompile(`^(.+?):\s*after\s+"([^"]+)"\s+argument\s+(\d+)$`).FindStringSubmatch(rest)
+			if nm == nil {
+				return fmt.Errorf("%s:%d: expected 'nouse <func>: after \"callee\" argument <i>'", path, lineNo)
+			}
+			cs.Fields = append(cs.Fields, &FieldDecl{Type: strings.TrimSpace(nm[1]), Field: nm[2], Pkg: pkg, Kind: "nouse", Arg: nm[3], Props: append([]string(nil), props...)})
 		case "order":
 			// order <func>: "<A>" dominates "<B>"   every call of B in func is dominated by a call of A
 			if err := flush(); err != nil {
